@@ -34,7 +34,7 @@ StepEvent ==
                       THEN {<<"C14.resolve", k>> : k \in DiffKeys(ev.inforce, expect)} ELSE {})
        IN /\ user' = u2
           /\ bad' = f
-          /\ (f = {} \/ PrintT(ToJson([vp |-> "FAIL", id |-> c.id, ev |-> ei, clauses |-> f])))
+          /\ IF f = {} THEN TRUE ELSE PrintT(ToJson([vp |-> "FAIL", id |-> c.id, ev |-> ei, clauses |-> f]))
           /\ ei' = ei + 1 /\ ci' = ci
 NextCase ==
     /\ ci <= Len(Cases) /\ ei > Len(Cases[ci].events)
